@@ -1,11 +1,22 @@
 SPECIFICATION Spec
 CONSTANTS
   WithReserved = FALSE
+  Dev = "none"
   Headers <- McHeaders
-  SpsCounts = {0, 1, 2}
-  PpsCounts = {0, 1, 3}
-  NalCounts = {0, 1, 2, 3}
+  SpsCounts = {0, 1}
+  PpsCounts = {0, 1}
+  NalCounts = {0, 1, 2}
   SizePatterns <- McPatterns
+  PosSizes = {1, 2}
+  PosCounts = {2}
+  RecPosSizes = {1, 2}
+  RecPosCounts = {0, 1}
+  PosHeaders <- McPosHeaders
+  MimicSizes = {1, 5}
+  Mimics <- McMimics
+  MimicCounts = {1}
+  HeaderMatrix <- McMatrixSmall
+  MatrixLsm1 = {3}
   MaxBytes = 100
 INVARIANTS ReservedOk
 CHECK_DEADLOCK FALSE
